@@ -1089,7 +1089,7 @@ def _run(ctx: Ctx, with_model: bool) -> None:
     for m, defaults, trees, stream in enumerated_trees():
         run_model(ctx, m, defaults, trees, stream, with_model, check_main=False)
     # random: focused models
-    for k in range(ctx.n(24, 400)):
+    for k in range(ctx.n(24, 300)):
         m, defaults = random_model(ctx.rng)
         b = Builder(m, ctx.rng)
         concrete = [c.name for c in m.classes if not c.abstract]
